@@ -21,6 +21,8 @@
 //          g  hand-over-hand: the ownership of the contender's auxiliary mutex is move-assigned over the held one
 //             (own object only); the auxiliary mutex is released at the end of the round
 //     opt  s  the ownership lives in the shared slot     f  `force_wait()` spelling     o  `ownership own(mx.lock())` spelling
+//          r  (rel x) `release()` is called a second time on the emptied object
+//          u  callback registered with `co_awaiter::await_suspend(resume_fn, ctx)` instead of `subscribe(awaiter *)`
 #include "shim/verif_shim.h"
 #include "shim/rename_on.h"
 #include <cocls/future.h>
@@ -66,7 +68,7 @@ struct Scn {
     // give the ownership held in *o up (everything but the awaited release)
     void give_up(int a, mutex_t::ownership *o, const std::string &rd, bool shared) {
         switch (rd[1]) {
-            case 'x': o->release(); break;
+            case 'x': o->release(); if (has_opt(rd, 'r') && !shared) o->release(); break;   // 'r': a second release() of the (now empty) own object is a no-op
             case 'd': if (shared) *o = mutex_t::ownership(); break;        // own object: destroyed at the end of the round
             case 'm': { mutex_t::ownership tmp(std::move(*o)); } break;
             case 'g': *o = aux[a].try_lock(); break;
@@ -115,15 +117,17 @@ struct Scn {
         log("done a" + std::to_string(a));
     }
 
-    struct CbAw : awaiter {
-        CbAw(co_awaiter<mutex_t> &req, mutex_t::ownership *o) : awaiter(&granted, this), req(req), o(o) {}
+    // the lock request of a callback contender; the object itself is the awaiter that gets published (same address for both
+    // spellings: `subscribe(awaiter *)` with the object armed by hand, `await_suspend(resume_fn, ctx)`)
+    struct CbAw : co_awaiter<mutex_t> {
+        CbAw(co_awaiter<mutex_t> &&req, mutex_t::ownership *o) : co_awaiter<mutex_t>(req), o(o) {}
         static suspend_point<void> granted(awaiter *, void *ctx) noexcept {
             auto me = static_cast<CbAw *>(ctx);
-            *me->o = me->req.await_resume();    // runs inside the previous owner's unlock()
+            *me->o = me->await_resume();    // runs inside the previous owner's unlock()
             me->got = true;
             return {};
         }
-        co_awaiter<mutex_t> &req;
+        void arm() { set_resume_fn(&granted, this); }
         mutex_t::ownership *o;
         bool got = false;
     };
@@ -141,10 +145,12 @@ struct Scn {
                     if (!got) { log("try-fail a" + std::to_string(a) + " r" + std::to_string(r)); rounds_done[a]++; r++; continue; }
                     *o = std::move(got);
                 } else if (rd[0] == 'k') {
-                    co_awaiter<mutex_t> req = mx.lock();
-                    CbAw cb(req, o);
-                    if (req.await_ready() || !req.subscribe(&cb)) {
-                        *o = req.await_resume();
+                    CbAw cb(mx.lock(), o);
+                    bool queued;
+                    if (has_opt(rd, 'u')) queued = !cb.await_ready() && cb.await_suspend(&CbAw::granted, &cb);
+                    else { cb.arm(); queued = !cb.await_ready() && cb.subscribe(&cb); }
+                    if (!queued) {
+                        *o = cb.await_resume();
                     } else {
                         bool *g = &cb.got;
                         if (!*g) { S().log_op("cb-block"); S().block([g] { return *g; }); }
